@@ -111,7 +111,7 @@ fn parse_header(header: &str) -> Result<Header, ParseError> {
 
 /// Parses the addresses and ports from a PROXY protocol header for IPv4 and IPv6.
 fn parse_addresses<'a, T: FromStr<Err = AddrParseError>, I: Iterator<Item = &'a str>>(
-    iterator: &mut I,
+    iterator: &mut std::iter::Peekable<I>,
 ) -> Result<(T, T, u16, u16), ParseError> {
     let source_address = iterator.next().ok_or(ParseError::MissingSourceAddress)?;
     let destination_address = iterator
@@ -119,6 +119,10 @@ fn parse_addresses<'a, T: FromStr<Err = AddrParseError>, I: Iterator<Item = &'a 
         .ok_or(ParseError::MissingDestinationAddress)?;
     let source_port = iterator.next().ok_or(ParseError::MissingSourcePort)?;
     let destination_port = iterator.next().ok_or(ParseError::MissingDestinationPort)?;
+
+    if destination_port.is_empty() && iterator.peek().is_none() {
+        return Err(ParseError::MissingDestinationPort);
+    }
 
     let source_address = source_address
         .parse::<T>()
